@@ -231,9 +231,11 @@ impl World {
         self.now_ns / 1_000_000_000
     }
 
+    /// The simulated clock never passes the year 2286 (10^10 s): block time is not under any
+    /// actor's control and the contracts' nanosecond arithmetic is only claimed for real dates.
     pub fn advance(&mut self, secs: u64) {
         if secs > 0 {
-            self.now_ns = self.now_ns.saturating_add(secs.saturating_mul(1_000_000_000));
+            self.now_ns = self.now_ns.saturating_add(secs.saturating_mul(1_000_000_000)).min(10_000_000_000u64 * 1_000_000_000);
             self.height += 1 + secs / 6;
             self.tx_index = 0;
         }
